@@ -33,11 +33,18 @@ def encode_as_wav(base, code, bk_filename, turbo=False):
             + env.PAUSE
             + encode_data_bits(code, env)
             + (env.PAUSE if turbo else b"")
-            + encode_data_bits(struct.pack("<H", sum(code) % (2 ** 16 - 1)), env)
+            + encode_data_bits(struct.pack("<H", bk_checksum(code)), env)
             + env.EOF
         ),
         env.sample_rate
     )
+
+
+def bk_checksum(data):
+    # 16-bit sum with end-around carry: a non-zero total that is a multiple of
+    # 0xffff folds to 0xffff, not to 0
+    total = sum(data)
+    return (total - 1) % (2 ** 16 - 1) + 1 if total else 0
 
 
 def encode_data_bits(data, env):
